@@ -102,8 +102,10 @@ CHECKS["C01"] = dict(
           "occurrence, the first block of a repeated mother kept (empty blocks are tables), tables = those blocks with every line "
           "once in order; per line bf = value of the literal, daughters verbatim, PHOTOS flag, model name, parameters in order "
           "(numeric literal -> number, undefined word verbatim, absent list absent); exact values of every literal form. "
-          "PARTIAL: text -> statement list (Lark) is tied by correspondence on generated texts (all alphabet characters, every "
-          "published model name, all literal forms), not by a parsing theorem."),
+          "PARTIAL: text -> statement list is the front-end model of C02 (Dec/FrontEnd.parse_text, with its round-trip theorems), "
+          "cross-checked on every case against the statement list the model term is built from, and tied to Lark by the "
+          "correspondence through the real parser (all alphabet characters, every published model name, all literal forms); "
+          "there is no theorem about Lark itself."),
     design="DESIGN.md §5 C01",
     technique="Coq proof (list induction: de-duplication keeps first occurrences; line resolution) + differential correspondence through the real parser")
 CHECKS["C05"] = dict(
@@ -111,7 +113,7 @@ CHECKS["C05"] = dict(
           "by its literal, textually negated after a leading minus; every ModelAlias use replaced by model + parameters) have "
           "identical decay tables incl. copied/conjugated ones and errors, wherever definitions are placed and however often "
           "used; last definition wins; undefined words verbatim; negating a literal's text negates its value. Unbounded. "
-          "PARTIAL front end as C01."),
+          "PARTIAL front end as C01 (front-end model of C02 cross-checked on every case; Lark itself tied by correspondence)."),
     design="DESIGN.md §5 C05",
     technique="Coq proof (statement-list induction, dictionary last-wins lemma, literal negation lemma) + differential correspondence + expanded-file oracle")
 
@@ -157,7 +159,7 @@ CHECKS["C07"] = dict(
           "PHOTOS flag = last one, off when absent; Pythia (per kind, per module:param) and JetSet (per module, per index) report the last "
           "statement, JetSet integers stay integers; lineshape settings: error iff some (particle, setting) is repeated, otherwise every "
           "statement accounted for; Particle width = explicit or reference width of the aliased particle divided by GeV. Unbounded. "
-          "PARTIAL front end as C01."),
+          "PARTIAL front end as C01 (front-end model of C02 cross-checked on every case; Lark itself tied by correspondence)."),
     design="DESIGN.md §5 C07",
     technique="Coq proof (fold invariants over insertion-ordered dictionaries) + differential correspondence through the real parser")
 
